@@ -79,13 +79,18 @@ def _persist(tree):
     out += _strlist("hydrateBody", _body(find_func(yu, "hydrate")), "`hydrate` statements")
     # --- representers registered on the dumper (or on yaml.SafeDumper) anywhere in the package
     reps = []
+    ctors = []
     for rel in _package_files():
         t = parse(rel)
         for n in ast.walk(t):
             if isinstance(n, ast.Call) and isinstance(n.func, ast.Attribute) and n.func.attr in (
                     "add_representer", "add_multi_representer"):
                 reps.append(f"{rel}: {ast.unparse(n.func)}({', '.join(ast.unparse(a) for a in n.args)})")
+            if isinstance(n, ast.Call) and isinstance(n.func, ast.Attribute) and n.func.attr in (
+                    "add_constructor", "add_multi_constructor"):
+                ctors.append(f"{rel}: {ast.unparse(n.func)}({', '.join(ast.unparse(a) for a in n.args)})")
     out += _strlist("representers", sorted(reps), "every representer registration in snowfakery/**")
+    out += _strlist("constructors", sorted(ctors), "every YAML constructor registration in snowfakery/**")
     # --- runtime: IdManager / Globals / Dependency / resave
     rt = parse("snowfakery/data_generator_runtime.py")
     idm = find_class(rt, "IdManager")
